@@ -8,7 +8,10 @@ SRC_FACTS = ["yamledit_set_fields", "yamledit_delete_empty", "yamledit_delete_mi
              "envrm_imports"]
 COQ_SAMPLE = 40
 BATCH = 100
-RULE = ("regression corpus (the six repaired defects in both modes, TestYAMLEdit-like edits); exhaustive family: 7 small "
+RULE = ("regression corpus (the six repaired defects in both modes, TestYAMLEdit-like edits, same-text replacements); "
+        "same-text family: 11 scalar texts (int, float, bool, null, ~, empty, date, string) x all ordered pairs of distinct "
+        "presentations (plain, double/single quoted, !!str) as mapping value and sequence element, and all pairs over "
+        "the spellings of null/empty, in both modes; exhaustive family: 7 small "
         "definitions x every single set/rm over 14 paths x 6 values, in both modes, plus all ordered pairs over a "
         "reduced alphabet (thorough) or a sample of them (quick); random stream: generated definitions (nested "
         "block/flow mappings and sequences, quoted/literal/plain scalars, quoted keys, head and line comments) with "
@@ -370,6 +373,10 @@ SMALL_PATHS = [["a"], ["b"], ["a", "x"], ["a", "b", "c"], ["a", 0], ["a", 1], ["
 SMALL_VALUES = ["5", '"s"', "{k: v}", "[1]", "abc", "{}"]
 
 
+# texts that resolve to a non-string type when plain: replacing one presentation by another changes the type
+SAME_TEXTS = ["8080", "-7", "0x1F", "1.5", "true", "false", "null", "~", "abc", "2001-12-14", ""]
+
+
 def wrap(mode, ast):
     if mode == "api" or ast is None:
         return ast
@@ -425,6 +432,35 @@ def gen(rng, tier):
                                   {"op": "set", "path": "n", "ipath": ["n"], "value": "12", "secret": True},
                                   {"op": "set", "path": "imports[0]", "ipath": ["imports", 0], "value": "base"},
                                   {"op": "rm", "path": "a.b", "ipath": ["a", "b"]}]))
+    # ---- same text, other type or style: a scalar replaced by a scalar whose text is identical ---------------
+    # regression corpus: the seeded early return "both scalars with the same text" (port: 8080 / set port '"8080"')
+    for mode in ("api", "cli"):
+        for src, val in (("8080", '"8080"'), ('"8080"', "8080"), ("true", '"true"'), ("null", '"null"'),
+                         ("null", ""), ("", '"null"'), ('"abc"', "abc")):
+            d = ("map", [("port", "", ("s", src, "keep")), ("z", "", ("s", "1", ""))], False)
+            cases.append(mk(mode, wrap(mode, d), [S(["port"], val), S(["port"], src if src else "~")]))
+    # exhaustive: every scalar class (int, float, bool, null, ~, empty, string) x every ordered pair of distinct
+    # presentations (plain, "double", 'single', explicit !!str tag) of the same text, as a mapping value and as a
+    # sequence element, in both modes
+    for text in SAME_TEXTS:
+        forms = [text, '"%s"' % text, "'%s'" % text] + (["!!str " + text] if text else [])
+        for f1 in forms:
+            for f2 in forms:
+                if f1 == f2:
+                    continue
+                dm = ("map", [("k", "", ("s", f1, "")), ("z", "", ("s", "1", ""))], False)
+                dq = ("map", [("l", "", ("seq", [("s", "0", ""), ("s", f1 if f1 else '""', "")], False))], False)
+                for mode in ("api", "cli"):
+                    cases.append(mk(mode, wrap(mode, dm), [S(["k"], f2)], reparse=(len(cases) % 2 == 0)))
+                    if f1:
+                        cases.append(mk(mode, wrap(mode, dq), [S(["l", 1], f2)]))
+    # the values a key without a value can be given back and forth: k: / k: null / k: ~ / k: "" and set '' / null / ~
+    for f1 in ("", "null", "~", '""', "''", '"null"', '"~"'):
+        for f2 in ("", "null", "~", '""', "''", '"null"', '"~"'):
+            if f1 != f2:
+                dm = ("map", [("k", "", ("s", f1, "")), ("z", "", ("s", "1", ""))], False)
+                for mode in ("api", "cli"):
+                    cases.append(mk(mode, wrap(mode, dm), [S(["k"], f2)]))
     # ---- exhaustive small family --------------------------------------------------------------------------
     def single_ops():
         for p in SMALL_PATHS:
